@@ -1201,6 +1201,26 @@ fn gen_c19(rng: &mut Rng, n: u64, lines: &mut Vec<String>) {
 		}
 	}
 	lines.push(sentinel(0));
+	// the limit at, just below and just above the size of the body: the same bytes announced by Content-Length
+	// or not, in one frame or two, get the same answer (and exactly-at-the-limit is within the limit)
+	{
+		let ct = hexs("application/json");
+		for body in ["{\"jsonrpc\":\"2.0\",\"id\":7,\"method\":\"echo\",\"params\":[1]}", " {\"jsonrpc\":\"2.0\",\"id\":\"\u{fc}\",\"method\":\"echo\",\"params\":[\"\u{20ac}\"]}\n", "[{\"jsonrpc\":\"2.0\",\"id\":1,\"method\":\"echo\"},{\"jsonrpc\":\"2.0\",\"id\":2,\"method\":\"sum\",\"params\":[1,2]}]"] {
+			let b = body.as_bytes();
+			for limit in [b.len() - 1, b.len(), b.len() + 1] {
+				cn += 1;
+				lines.push(format!("case {} srv {limit} 100000 u", 900000 + cn));
+				let half = b.len() / 2;
+				lines.push(format!("http POST {ct} none {}", hex(b)));
+				lines.push(format!("http POST {ct} {} {}", b.len(), hex(b)));
+				lines.push(format!("http POST {ct} none {} {}", hex(&b[..half]), hex(&b[half..])));
+				lines.push(format!("http POST {ct} {} {} {}", b.len(), hex(&b[..half]), hex(&b[half..])));
+				lines.push(format!("http POST {ct} {} {} {}", b.len(), hex(&b[..1]), hex(&b[1..])));
+				lines.push(sentinel(0));
+			}
+		}
+		cn = 0;
+	}
 	for i in 0..n {
 		cn += 1;
 		lines.push(format!("case {cn} srv {} 100000 {}", if rng.chance(1, 5) { rng.range(40, 200) } else { 100000 }, batch_cfg(rng)));
